@@ -15,6 +15,7 @@ pub mod c09;
 pub mod c06;
 pub mod codes;
 pub mod c07;
+pub mod c08;
 pub mod readhist;
 pub mod c19;
 
@@ -28,6 +29,7 @@ pub fn run(prop: &str, ctx: &Ctx) -> Option<Report> {
         "C09" => c09::run(ctx),
         "C06" => c06::run(ctx),
         "C07" => c07::run(ctx),
+        "C08" => c08::run(ctx),
         _ => return None,
     })
 }
@@ -43,6 +45,7 @@ pub fn replay(prop: &str, case: &str, rep: &mut Report) -> bool {
         "C09" => c09::replay(case, rep),
         "C06" => c06::replay(case, rep),
         "C07" => c07::replay(case, rep),
+        "C08" => c08::replay(case, rep),
         _ => return false,
     }
     true
